@@ -36,7 +36,7 @@ CLAIMS = {
 }
 
 # claimed in CLAIMS but proofs still being written
-PENDING = {"C01": "Lean proofs in progress (Halo/Proofs/C01.lean)", "C06": "Lean proofs in progress (Halo/Proofs/C01.lean)"}
+PENDING = {}
 
 NOT_YET = {
  "C02": "world-level model (N5) and swap settlement theorems not built yet; planned, see DESIGN §6 C02",
